@@ -252,7 +252,7 @@ func openJournal() (*journal, error) {
 		dir = os.TempDir()
 	}
 	p := filepath.Join(dir, fmt.Sprintf("c10-journal-%d.jsonl", os.Getpid()))
-	f, err := os.OpenFile(p, os.O_CREATE|os.O_WRONLY|os.O_TRUNC, 0o644)
+	f, err := os.OpenFile(p, os.O_CREATE|os.O_WRONLY|os.O_APPEND, 0o644)
 	if err != nil {
 		return nil, err
 	}
